@@ -799,14 +799,14 @@ func (P *Prog) checkProviderTagTable(r *Result) {
 		}
 		r.sawFunc(fname(fn))
 		found := false
-		eachInstr(fn, func(_ *ssa.BasicBlock, _ int, in ssa.Instruction) {
-			ci := callOf(in)
-			if ci != nil && ci.static != nil && ci.static.Name() == "form" && len(ci.args()) == 2 {
-				got, ok := tagOf(ci.args()[1])
-				check(name, P.ipos(in), got, wantTag, ok)
-				found = true
+		for _, b := range P.valuesProviderBuilds(fn) {
+			got, ok := "", false
+			if b.tag != nil {
+				got, ok = tagOf(b.tag)
 			}
-		})
+			check(name, P.ipos(b.in), got, wantTag, ok)
+			found = true
+		}
 		if !found {
 			r.bad("C10/provider-tag-table", name, P.pos(fn.Pos()), "parser does not build its provider through form(values, &tag)")
 		}
